@@ -12,7 +12,7 @@ from .c14 import _index
 
 
 def make(shape, cards, names=None, attrs=None, trees=None):
-    """attrs: [(feature index, name, ('range', lo, hi) | ('enum', [texts]), default text, null text)]"""
+    """attrs: [(feature index, name, ('range', lo, hi) | ('ranges', [(lo, hi), ...]) | ('enum', [texts]), default text, null text)]"""
     n = R.n_features(shape)
     names = names or ['F%d' % i for i in range(n)]
     ctcs = [R.ctc('c%d' % i, t) for i, t in enumerate(trees or [])]
@@ -22,6 +22,8 @@ def make(shape, cards, names=None, attrs=None, trees=None):
         for fi, aname, dom, dflt, null in attrs:
             if dom[0] == 'range':
                 d = Domain([Range(dom[1], dom[2])], None)
+            elif dom[0] == 'ranges':
+                d = Domain([Range(lo, hi) for lo, hi in dom[1]], None)
             else:
                 d = Domain(None, list(dom[1]))
             feats[fi].add_attribute(Attribute(aname, d, dflt, null))
